@@ -462,7 +462,13 @@ def check_opqueries(ctx, meta, pi, tag, hname, h, ho, d, P, ovx, exp_cache, ocas
         shape = ("embedded" if op_embedded(meta, D, ons) else "not-embedded") if two and len(ons["spatial"]) == 2 else "plain"
         if "err" in obs:
             ctx.hist("operand_query", f"{kind}:{shape}:{obs['err'].split(':')[0]}")
-            ctx.oracle_fail(f"operand-query-raises:{kind}:{shape}", dict(case, error=obs["err"]), "a data-ID query with a join operand raised")
+            sig = f"operand-query-raises:{kind}:{shape}"
+            if d["dangling"] and kind == "dataset" and "subfilter" in ons["names"] and "physical_filter" not in ons["names"] \
+                    and "DataIdValueError" in obs["err"] and "dimension band" in obs["err"]:
+                # known finding 3 seen through insertDatasets: the operand's data IDs are what the implementation's own query over
+                # the operand's group returns, including the subfilter whose band no physical_filter has; expanding that data ID fails
+                sig = "dangling-band:subfilter"
+            ctx.oracle_fail(sig, dict(case, error=obs["err"]), "a data-ID query with a join operand raised")
             continue
         for g in (D, ons):
             key = tuple(g["names"])
@@ -479,7 +485,11 @@ def check_opqueries(ctx, meta, pi, tag, hname, h, ho, d, P, ovx, exp_cache, ocas
         if got != want:
             extra = [x for x in got if x not in want][:4]
             missing = [x for x in want if x not in got][:4]
-            ctx.oracle_fail(f"operand-rows-differ:{kind}:{shape}:{'extra' if extra else ''}{'missing' if missing else ''}",
+            sig = f"operand-rows-differ:{kind}:{shape}:{'extra' if extra else ''}{'missing' if missing else ''}"
+            if d["dangling"] and "subfilter" in D["names"] and "physical_filter" not in D["names"] and "band" in G["names"] and not missing \
+                    and all(x[G["names"].index("band")] == 3 for x in got if x not in want):
+                sig = "dangling-band:subfilter"          # known finding 3: the only unexpected rows carry the band no physical_filter has
+            ctx.oracle_fail(sig,
                             dict(case, unexpected_rows=extra, missing_rows=missing, expected_n=len(want), got_n=len(got),
                                  operand_rows=sorted(R)[:40]),
                             "a query joined to a materialization / uploaded data IDs / a dataset search does not return exactly the "
